@@ -1598,7 +1598,8 @@ rv = .false.
             fmt_result0 = node._fmtresult
             fmt_result = fmt_result0.setdefault("fmtf", util.Scope(fmt_func))
             fmt_result.f_var = fmt_func.F_result
-            fmt_result.cxx_type = result_typemap.cxx_type # used with helpers
+            fmt_result.cxx_type = result_typemap.cxx_type
+            fmt_result.flat_name = result_typemap.flat_name # used with helpers
             fmt_func.F_result_clause = "\fresult(%s)" % fmt_func.F_result
             self.set_fmt_fields(cls, C_node, ast, C_node.ast, fmt_result,
                                 modules, fileinfo, True, result_typemap)
